@@ -464,6 +464,9 @@ Error CodeHolder::grow_buffer(CodeBuffer* cb, size_t n) noexcept {
   }
 
   size_t kInitialCapacity = 8192u - Globals::kAllocOverhead;
+#if defined(ASMJIT_VERIF)
+  kInitialCapacity = asmjit_verif_tune(kAsmJitVerifKnobCodeBufferInitialCapacity, kInitialCapacity);
+#endif
   if (capacity < kInitialCapacity) {
     capacity = kInitialCapacity;
   }
